@@ -251,7 +251,13 @@ def residual_zero(res):
             return None
         if abs(val) > 1e-12:
             nonzero = True
-    return False if nonzero else None
+    if nonzero:
+        return False
+    # all probes vanish to rounding: if the residual only fails to simplify because it carries floating-point literals (coefficients such as
+    # (2k+1)/(k+1) evaluated in floats leave terms like 5.9e-16*x), it is zero
+    if res.atoms(sp.Float):
+        return True
+    return None
 
 
 def check(repo, tier):
@@ -311,6 +317,11 @@ def check(repo, tier):
                         if fn is None:
                             raise AnalysisError(f'{cname} has no method {method}')
                         return it.call_fn(fn, list(margs), {}, self_obj=inst)
+                    except Raised as r_:
+                        if 'cannot be interpreted as an integer' in r_.message and any(isinstance(v, sp.Basic) and v.is_integer and not v.is_number for v in kwargs.values()):
+                            # the method loops over / indexes with the integer parameter: only concrete values of it can be interpreted
+                            raise SkipSymbolic(f'{label}.{method}: needs a concrete value of the symbolic integer parameter')
+                        raise
                     except Fork:
                         if any(isinstance(v, sp.Basic) and v.is_integer and not v.is_number for v in kwargs.values()):
                             raise SkipSymbolic(f'{label}.{method}: guard {it.fork_log[-1][1]} not decided for the symbolic integer parameter')
